@@ -2585,6 +2585,55 @@ def _rule_opaque(ctx, rep):
         )
 
 
+def _rule_zone(ctx, rep):
+    """a bound keeps denoting the same instant on its way to chronicle.find (added after seeded change C18-7: the history
+    end points finished parsing a bound with `.replace(tzinfo=UTC)`; a bound written with another offset kept its wall
+    clock time and the whole window moved by that offset)"""
+    prog = ctx.prog
+    with rep.rule(
+        'R-C18-9',
+        'in the history end points (dawgie.fe.api.schedule) the time zone of a parsed bound is overwritten (`.replace(tzinfo=...)`) only where the bound is known to be naive (`<x>.tzinfo is None` / `utcoffset() is None` tested true); an aware bound is converted, never relabelled',
+        floor=1,
+        breaks='a window given with a non-UTC offset is shifted by that offset: entries outside it are returned and entries inside it are dropped',
+    ) as r:
+        mod = 'dawgie.fe.api.schedule'
+        fns = [f for q, f in sorted(prog.funcs.items()) if f.module.name == mod]
+        if not fns:
+            raise AnalysisError('dawgie.fe.api.schedule not found')
+        n_sites = 0
+        for raw in fns:
+            f = raw
+            rep.analysed(f)
+            bad = []
+
+            class Z(Flow):
+                def on_test(s, e, st):
+                    t = norm(e)
+                    if ('tzinfo' in t or 'utcoffset' in t) and isinstance(e, ast.Compare) and len(e.ops) == 1 and isinstance(e.comparators[0], ast.Constant) and e.comparators[0].value is None:
+                        if isinstance(e.ops[0], (ast.Is, ast.Eq)):
+                            return ('naive',), ('aware',)
+                        if isinstance(e.ops[0], (ast.IsNot, ast.NotEq)):
+                            return ('aware',), ('naive',)
+                    return (st,), (st,)
+
+                def on_call(s, call, st):
+                    if isinstance(call.func, ast.Attribute) and call.func.attr == 'replace' and any(k.arg == 'tzinfo' for k in call.keywords):
+                        if st != 'naive':
+                            bad.append(call)
+                    return (st,)
+
+            Z().run(f.node, '?')
+            n_sites += 1
+            r.instance()
+            r.check(
+                not bad,
+                f'{f.qname}:bounds-not-relabelled',
+                where(f, bad[0] if bad else None),
+                'no unconditional .replace(tzinfo=...) on a bound',
+                f'{f.qname}: {norm(bad[0])[:70] if bad else ""} relabels the time zone of a bound that may already carry one: the instant it denotes changes by its offset',
+            )
+
+
 def check(ctx):
     # sa/inline.py caches normal forms under id(prog): a Program created after an earlier one was freed (variants
     # analysed one after the other in one process) can get the same id and be served the earlier program's functions
@@ -2624,6 +2673,7 @@ def check(ctx):
     _rule6(ctx, rep, lf, ffl, fnode, rdir, cursor)
     _rule_fresh(ctx, rep)
     _rule_opaque(ctx, rep)
+    _rule_zone(ctx, rep)
     return rep
 
 
@@ -2675,6 +2725,7 @@ def _load_with_helper(cmp, tail):
 # Texts marked (fixed) exist only once pending_fixes/C18-1.diff and C18-2.diff are applied; on the unrepaired tree those
 # variants are skipped (anchor text absent).
 VARIANTS = [
+    V('history bound relabelled as UTC', 'B', 'fe/api/schedule.py', 'failed', 'datetime.fromisoformat(after[0]) if after else None', '(datetime.fromisoformat(after[0]).replace(tzinfo=None)) if after else None', 'R-C18-9'),
     V('_load memoises parsed journals at module level', 'B', 'pl/logger/chronicle.py', None, 'def _load(after: datetime, before: datetime, journal: str, succeeded: bool):\n    entries = []', '_parsed = {}\n\n\ndef _load(after: datetime, before: datetime, journal: str, succeeded: bool):\n    entries = _parsed.setdefault(journal, [])', 'R-C18-7'),
     V('complete logs the start time before recording', 'B', 'pl/schedule.py', 'complete', "if target == '__all__':", "log.info('started %s', timing['started'])\n    if target == '__all__':", 'R-C18-8'),
     V('complete logs the start time tolerantly', 'N', 'pl/schedule.py', 'complete', "if target == '__all__':", "log.info('started %s', timing.get('started'))\n    if target == '__all__':", None),
